@@ -682,15 +682,19 @@ Proof.
   apply (copy_pend E B n pr rho S region SB CO).
 Qed.
 
-(** ** Copying everything below a path [c] to a free place [c'] *)
+(** ** Copying everything below a path [c] to a free place [c']
+
+    [T]: the tree the snapshot is taken from; [B]: the tree it is added to ([T] plus user
+    nodes, viz. the intermediate groups of the destination, which may lie below [c]). *)
 
 Section SubCopy.
-  Variables (E : env) (T : tree) (n : N) (pr : list (string * string)) (c c' : path).
+  Variables (E : env) (T B : tree) (n : N) (pr : list (string * string)) (c c' : path).
   Hypothesis S : SyncRaw E T n pr.
+  Hypothesis GB : Grow T B.
   Hypothesis NEc : c <> [].
   Hypothesis NEc' : c' <> [].
-  Hypothesis Free : forall k, is_prefix c' k = true -> t_has T k = false.
-  Hypothesis Gpd : is_group (t_get T (parent c')) = true.
+  Hypothesis Free : forall k, is_prefix c' k = true -> t_has B k = false.
+  Hypothesis Gpd : is_group (t_get B (parent c')) = true.
   Let r := rebase c c'.
   Let S0 := t_sub c T.
 
@@ -710,6 +714,9 @@ Section SubCopy.
       exists (k, o). split; auto. now apply sc_in.
   Qed.
 
+  Lemma sc_sub k o : In (k, o) S0 -> t_get B k = Some o.
+  Proof. intros I. apply sc_in in I as [G _]. now apply (gr_mono _ _ GB). Qed.
+
   Lemma sc_nds : NoDup (map fst S0).
   Proof.
     unfold S0, t_sub. rewrite (map_fst_filter (fun k => is_prefix c k)).
@@ -721,25 +728,22 @@ Section SubCopy.
     intros I1 I2. apply sc_key in I1 as [_ P1], I2 as [_ P2]. now apply rebase_inj_under.
   Qed.
 
-  Lemma sc_free k : In k (map fst S0) -> t_has T (r k) = false.
+  Lemma sc_free k : In k (map fst S0) -> t_has B (r k) = false.
   Proof. intros I. apply sc_key in I as [_ P]. apply Free. now apply rebase_prefix. Qed.
 
-  Lemma sc_new k o : t_get T k = Some o -> is_prefix c k = true -> t_get (T ++ tmap r S0) (r k) = Some o.
+  Lemma sc_new k o : t_get T k = Some o -> is_prefix c k = true -> t_get (B ++ tmap r S0) (r k) = Some o.
   Proof.
-    intros G P. apply (cb_new T r S0 sc_nds sc_inj sc_free). now apply sc_in.
+    intros G P. apply (cb_new B r S0 sc_nds sc_inj sc_free). now apply sc_in.
   Qed.
 
-  Lemma sc_old k o : t_get T k = Some o -> t_get (T ++ tmap r S0) k = Some o.
-  Proof. apply cb_old. Qed.
-
   Lemma sc_par k : In k (map fst S0) ->
-    r k <> [] /\ is_group (t_get (T ++ tmap r S0) (parent (r k))) = true.
+    r k <> [] /\ is_group (t_get (B ++ tmap r S0) (parent (r k))) = true.
   Proof.
     intros I. apply sc_key in I as [H P]. unfold t_has in H.
     destruct (t_get T k) as [o|] eqn:G; [|discriminate]. split.
     - unfold r. rewrite rebase_under by auto. destruct c'; [contradiction|discriminate].
     - destruct (list_eq_dec string_dec k c) as [->|Nk].
-      + unfold r. rewrite rebase_self. apply (is_group_mono T); auto. apply cb_old.
+      + unfold r. rewrite rebase_self. apply (is_group_mono B); auto. apply cb_old.
       + assert (NEk : k <> []) by (intros ->; destruct c; [contradiction|discriminate]).
         pose proof (sraw_parent E T n pr k o S G NEk) as PG.
         destruct (t_get T (parent k)) as [g|] eqn:Gp; [|discriminate].
@@ -747,31 +751,40 @@ Section SubCopy.
         now rewrite (sc_new _ g Gp (parent_under c k P Nk)).
   Qed.
 
+  (** a reserved path present in [B] is present in [T] *)
+  Lemma sc_res_old p : has_reserved p = true -> t_has B p = true -> t_has T p = true.
+  Proof.
+    intros R H. unfold t_has in *. destruct (t_get B p) as [o|] eqn:G; [|discriminate].
+    destruct (gr_new _ _ GB p o G) as [G0|(_ & U & _)]; [now rewrite G0|congruence].
+  Qed.
+
   Lemma sc_reg_new k : In k (map fst S0) -> is_prefix c' (r k) = true.
   Proof. intros I. apply sc_key in I as [_ P]. now apply rebase_prefix. Qed.
 
-  Lemma sc_reg_old p : t_has T p = true -> is_prefix c' p = false.
+  Lemma sc_reg_old p : t_has B p = true -> is_prefix c' p = false.
   Proof. intros H. destruct (is_prefix c' p) eqn:P; auto. rewrite Free in H; auto. Qed.
 End SubCopy.
 
 (** ** Copying a group with everything below it *)
 
 Section CopyGroup.
-  Variables (E : env) (T : tree) (n : N) (pr : list (string * string)) (s d : path).
+  Variables (E : env) (T B : tree) (n : N) (pr : list (string * string)) (s d : path).
   Hypothesis S : SyncRaw E T n pr.
+  Hypothesis SB : SyncRaw E B n pr.
+  Hypothesis GB : Grow T B.
   Hypothesis Us : has_reserved s = false.
   Hypothesis Ud : has_reserved d = false.
   Hypothesis NEs : s <> [].
   Hypothesis NEd : d <> [].
-  Hypothesis Free : forall k, is_prefix d k = true -> t_has T k = false.
-  Hypothesis Gpd : is_group (t_get T (parent d)) = true.
+  Hypothesis Free : forall k, is_prefix d k = true -> t_has B k = false.
+  Hypothesis Gpd : is_group (t_get B (parent d)) = true.
   Let r := rebase s d.
   Let S0 := t_sub s T.
 
   Lemma cg_key k : In k (map fst S0) <-> t_has T k = true /\ is_prefix s k = true.
   Proof. apply (sc_key E T n pr s S). Qed.
-  Lemma cg_new k o : t_get T k = Some o -> is_prefix s k = true -> t_get (T ++ tmap r S0) (r k) = Some o.
-  Proof. apply (sc_new E T n pr s d S Free). Qed.
+  Lemma cg_new k o : t_get T k = Some o -> is_prefix s k = true -> t_get (B ++ tmap r S0) (r k) = Some o.
+  Proof. apply (sc_new E T B n pr s d S Free). Qed.
 
   Lemma cg_user k : has_reserved k = false -> has_reserved (r k) = false.
   Proof.
@@ -780,18 +793,18 @@ Section CopyGroup.
     apply has_reserved_skipn in Z. congruence.
   Qed.
 
-  Lemma copy_group_ok : CopyOk T r S0 d.
+  Lemma copy_group_ok : CopyOk B r S0 d.
   Proof.
     constructor.
-    - intros k o I. now apply (sc_in E T n pr s S) in I as [G _].
+    - apply (sc_sub E T B n pr s S GB).
     - apply (sc_nds E T n pr s S).
     - apply (sc_inj E T n pr s d S).
-    - apply (sc_free E T n pr s d S Free).
+    - apply (sc_free E T B n pr s d S Free).
     - intros k I. apply cg_key in I as [_ P]. split.
       + destruct (in_toc k) eqn:X; auto.
         now rewrite (user_not_under_toc s k Us NEs X) in P.
       + unfold r. rewrite rebase_under by auto. now apply user_head_not_toc.
-    - apply (sc_par E T n pr s d S NEs NEd Free Gpd).
+    - apply (sc_par E T B n pr s d S NEs NEd Free Gpd).
     - intros k _. apply cg_user.
     - intros k dd m I K. apply cg_key in I as [H P].
       apply classify_dir_inv in K as (Ek & Hd & Hm).
@@ -808,7 +821,9 @@ Section CopyGroup.
           unfold r. rewrite <- rebase_app by auto. fold r.
           now rewrite (cg_new _ g Gd (is_prefix_app_r s dd _ Pd)).
       + intros y Hy. split.
-        * apply cg_key. split; auto. apply is_prefix_app_r. now apply is_prefix_app_r.
+        * apply cg_key. split; [|apply is_prefix_app_r; now apply is_prefix_app_r].
+          apply (sc_res_old T B GB); auto. rewrite !has_reserved_app. simpl.
+          now rewrite (meta_seg_reserved m Hm), !orb_true_r.
         * unfold r. rewrite (rebase_app s d (dd ++ [m]) [y]) by (now apply is_prefix_app_r).
           now rewrite rebase_app.
     - intros k I Ok. apply cg_key in I as [H P].
@@ -820,15 +835,15 @@ Section CopyGroup.
       + unfold is_obj_path. rewrite classify_obj; auto. now apply cg_user.
       + now rewrite !last_seg_app2.
     - apply (sc_reg_new E T n pr s d S).
-    - apply (sc_reg_old T d Free).
+    - apply (sc_reg_old B d Free).
   Qed.
 
   Lemma copy_group_meta_sync :
     env_ok E = true ->
-    SyncRaw E (fst (reuuid_region (T ++ t_rename s d (t_sub s T)) n pr d))
-            (snd (reuuid_region (T ++ t_rename s d (t_sub s T)) n pr d)) pr.
+    SyncRaw E (fst (reuuid_region (B ++ t_rename s d (t_sub s T)) n pr d))
+            (snd (reuuid_region (B ++ t_rename s d (t_sub s T)) n pr d)) pr.
   Proof.
-    intros EO. rewrite t_rename_tmap. apply (reuuid_sync E T n pr r S0 d EO S copy_group_ok).
+    intros EO. rewrite t_rename_tmap. apply (reuuid_sync E B n pr r S0 d EO SB copy_group_ok).
   Qed.
 End CopyGroup.
 
@@ -878,14 +893,14 @@ Section CopySidecar.
     destruct cs_facts as (Hms & Hmd & Ed & Ups & Upd & Mms & Mmd & Rms & Ims & Imd & NEms & NEmd & Gpd).
     assert (Gpm : is_group (t_get T (parent md)) = true) by (rewrite Hmd, parent_app1; exact Gpd).
     constructor.
-    - intros k o I. now apply (sc_in E T n pr ms S) in I as [G _].
+    - apply (sc_sub E T T n pr ms S (grow_refl T)).
     - apply (sc_nds E T n pr ms S).
     - apply (sc_inj E T n pr ms md S).
-    - apply (sc_free E T n pr ms md S Free).
+    - apply (sc_free E T T n pr ms md S Free).
     - intros k I. apply cs_key in I as [_ P]. split.
       + destruct (in_toc k) eqn:X; auto. now rewrite (not_under_nontoc ms k Ims NEms X) in P.
       + unfold r. rewrite rebase_under by auto. now rewrite in_toc_app.
-    - apply (sc_par E T n pr ms md S NEms NEmd Free Gpm).
+    - apply (sc_par E T T n pr ms md S NEms NEmd Free Gpm).
     - intros k I U. apply cs_key in I as [_ P]. now rewrite (user_not_under ms k Rms U) in P.
     - intros k dd m I K. apply cs_key in I as [H P].
       apply classify_dir_inv in K as (Ek & Hd & Hm).
@@ -926,29 +941,28 @@ Lemma copy_raw_with_meta E st o s d :
           (prov (fst (c_copy st o s d false))).
 Proof.
   intros EO S Us Ud Ld Go. unfold c_copy. destruct (u_copy (raw st) s d) as [T1|] eqn:UC; [|exact S].
-  destruct (copy_setup E st o s d T1 S Us Ud Go UC) as (T0 & S0 & NEs & NEd & Psd & G0 & Free & Gpd & -> & _).
-  assert (Hs : t_has T0 s = true) by (unfold t_has; now rewrite G0).
+  destruct (copy_setup E st o s d T1 S Us Ud Go UC) as (T0 & S0 & NEs & NEd & G0 & Free & Gpd & -> & GR0).
   destruct (Ld NEs) as [Ld'|Ld']; [|contradiction]. clear Ld.
   unfold c_copy_fixups. destruct o as [[|v] at0]; cbn [okind].
-  - (* group *)
-    pose proof (copy_group_meta_sync E T0 _ _ s d S0 Us Ud NEs NEd Free Gpd EO) as R.
+  - (* group: also when the destination lies below the source *)
+    pose proof (copy_group_meta_sync E (raw st) T0 _ _ s d S S0 GR0 Us Ud NEs NEd Free Gpd EO) as R.
     destruct (reuuid_region _ _ _ _) as [T3 n3]. exact R.
   - (* dataset *)
-    assert (Ds : is_data (t_get T0 s) = true) by now rewrite G0.
-    rewrite t_rename_tmap, (sub_data_usub E T0 _ _ s S0 Us Ds).
-    set (T1 := T0 ++ tmap (rebase s d) (usub T0 s)).
-    assert (S1 : SyncRaw E T1 (next_id st) (prov st)) by now apply copy_user_raw.
+    assert (Ds : is_data (t_get (raw st) s) = true) by now rewrite Go.
+    rewrite t_rename_tmap, (sub_data_usub E (raw st) _ _ s S Us Ds).
+    set (T1 := T0 ++ tmap (rebase s d) (usub (raw st) s)).
+    assert (S1 : SyncRaw E T1 (next_id st) (prov st)) by now apply (copy_user_raw E (raw st) T0).
     destruct (t_has T1 (meta_dir_of s true)) eqn:Hm; [|exact S1].
     assert (Dd : is_data (t_get T1 d) = true).
     { unfold T1. rewrite t_get_app. pose proof (Free d (is_prefix_refl d)) as Fd.
       unfold t_has in Fd. destruct (t_get T0 d); [discriminate|].
       rewrite <- (rebase_self s d) at 2.
-      rewrite (cu_get E T0 _ _ s d S0 s (mkobj (KData v) at0)); auto.
-      apply (cu_in E T0 _ _ s S0). repeat split; auto using is_prefix_refl. }
+      rewrite (cu_get E (raw st) _ _ s d S s (mkobj (KData v) at0)); auto.
+      apply (cu_in E (raw st) _ _ s S). repeat split; auto using is_prefix_refl. }
     assert (FreeMd : forall k, is_prefix (meta_dir_of d true) k = true -> t_has T1 k = false).
     { intros k P. destruct (t_has T1 k) eqn:H; auto. exfalso. unfold t_has in H.
       destruct (t_get T1 k) as [x|] eqn:G; [|discriminate].
-      pose proof (copy_user_grow E T0 _ _ s d S0 Us Ud NEs NEd Hs Free Gpd) as GR.
+      pose proof (copy_user_grow E (raw st) T0 _ _ s d S Us Ud NEs NEd Free Gpd) as GR.
       destruct (gr_new _ _ GR k x G) as [Gk|(_ & U & _)].
       - pose proof (md_free E T0 _ _ s d S0 Us Ud NEs NEd Ld' Free k P) as F.
         unfold t_has in F. now rewrite Gk in F.
@@ -1027,3 +1041,22 @@ Lemma example_copy_meta :
   next_id (cs (s_run E0 init_ss ops_copy_meta)) = 9%N.
 Proof. split; [apply sync_reachable; reflexivity|vm_compute; auto]. Qed.
 
+
+(** Witness: copies of a group to places strictly BELOW the group itself ([copy g g/b/c] with
+    metadata, [copy g g/h/k] without, copy into its own sub-group object): a snapshot of the
+    source taken before the intermediate groups are created is grafted; every call succeeds. *)
+Definition ops_self_copy : list sop :=
+  [SOp (CCreateGroup "/" "g/h"); SOp (CSetItem "/" "g/x" "1");
+   SAttach "/g/x" "c06.bb__0.1.0" "0" true; SAttach "/g" "c06.aa__0.1.0" "1" true;
+   SAttach "/g/h" "c06.cc__0.1.0" "2" true;
+   SOp (CCopy "/" "g" "g/b/c" false); SOp (CCopy "/" "g" "g/h/k" true);
+   SOp (CCopyInto "/" "g/h" "/g/h" (Some "again") false); SReopen false].
+
+Lemma example_self_copy :
+  Sync E0 (s_run E0 init_ss ops_self_copy) /\
+  t_has (raw (cs (s_run E0 init_ss ops_self_copy))) ["g"; "b"; "c"; "h"; "metador_meta_"] = true /\
+  t_has (raw (cs (s_run E0 init_ss ops_self_copy))) ["g"; "b"; "c"; "b"] = false /\
+  t_has (raw (cs (s_run E0 init_ss ops_self_copy))) ["g"; "h"; "again"; "metador_meta_"] = true /\
+  t_has (raw (cs (s_run E0 init_ss ops_self_copy))) ["g"; "h"; "k"; "b"; "c"; "x"] = true /\
+  t_has (raw (cs (s_run E0 init_ss ops_self_copy))) ["g"; "h"; "k"; "metador_meta_"] = false.
+Proof. split; [apply sync_reachable; reflexivity|vm_compute; auto]. Qed.
